@@ -13,3 +13,6 @@ CHECKS["C13"] = check_group.run
 
 import check_color
 CHECKS["C12"] = check_color.run
+
+import check_hist
+CHECKS["C14"] = check_hist.run
